@@ -11,6 +11,7 @@ pub mod oracle_search;
 pub mod props;
 pub mod queries;
 pub mod runner;
+pub mod script;
 pub mod spec;
 pub mod values;
 
